@@ -98,10 +98,10 @@ func msgBundleCases(add func(*Case)) {
 	modes := []string{"identity", "unknown-placeholder", "unknown-placeholder-after-known", "plural-unknown-var", "plural-no-cases",
 		"plural-one-case", "placeholder-names-plural-var", "empty", "nil-part"}
 	bodies := map[string]string{
-		"plain":       `{msg desc="d"}Hello {$x} and <b>{$y}</b>!{/msg}`,
-		"plural":      `{msg desc="d"}{plural $n}{case 0}none{case 1}one {$x}{default}{$n} many{/plural}{/msg}`,
-		"two-msgs":    `{msg desc="a"}A {$x}{/msg}{msg desc="b"}B {$y}{/msg}`,
-		"msg-in-loop": `{foreach $i in [1,2]}{msg desc="d"}I {$i} {$x}{/msg}{/foreach}`,
+		"plain":       `{msg desc="d"}Hello {$x} and <b>{$y}</b>!{/msg}{$n ?: ''}`,
+		"plural":      `{msg desc="d"}{plural $n}{case 0}none{case 1}one {$x}{default}{$n} many{/plural}{/msg}{$y ?: ''}`,
+		"two-msgs":    `{msg desc="a"}A {$x}{/msg}{msg desc="b"}B {$y}{/msg}{$n ?: ''}`,
+		"msg-in-loop": `{foreach $i in [1,2]}{msg desc="d"}I {$i} {$x}{/msg}{/foreach}{$y ?: ''}{$n ?: ''}`,
 	}
 	for bname, body := range bodies {
 		for _, where := range []string{"direct", "via-call", "direct-last-line"} {
